@@ -264,7 +264,7 @@ class ConstrainedQuadraticModel(cyConstrainedQuadraticModel):
             raise ValueError("a constraint with that label already exists")
 
         if isinstance(qm, BinaryQuadraticModel) and qm.dtype == object:
-            qm = BinaryQuadraticModel(qm)
+            qm = BinaryQuadraticModel(qm, dtype=self.dtype)
 
         return super().add_constraint_from_model(
             qm.data,
